@@ -71,6 +71,8 @@ fn main() {
     let target: i32 = std::env::var("FAKE_CLI_PID").ok().and_then(|s| s.parse().ok()).unwrap_or_else(|| unsafe { getppid() });
     let stdin = std::io::stdin();
     let mut out_open = true;
+    // `linger <ms>`: this session takes that long to close after it has seen end-of-file
+    let mut linger: u64 = 0;
     let stream = serde_json::Deserializer::from_reader(stdin.lock()).into_iter::<serde_json::Value>();
     for v in stream {
         let v = match v {
@@ -123,6 +125,9 @@ fn main() {
             unsafe { close(1) };
             out_open = false;
             continue;
+        } else if let Some(rest) = sql.strip_prefix("linger ") {
+            linger = rest.split_whitespace().next().and_then(|s| s.parse().ok()).unwrap_or(0);
+            serde_json::json!({ "result": [] })
         } else if let Some(rest) = sql.strip_prefix("slow ") {
             let ms: u64 = rest.split_whitespace().next().and_then(|s| s.parse().ok()).unwrap_or(100);
             std::thread::sleep(std::time::Duration::from_millis(ms));
@@ -137,6 +142,9 @@ fn main() {
                 break;
             }
         }
+    }
+    if linger > 0 {
+        std::thread::sleep(std::time::Duration::from_millis(linger));
     }
     log(&db, "eof");
 }
